@@ -147,7 +147,7 @@ static void acc_fail(acc_t *a, const char *sig, const char *fmt, ...) {
  * present, thousands of cases fail for the same reason; the first FULL_PER_SIG failing cases per signature
  * (and process) carry the whole detail, later ones a short pointer. Every failing case is still reported
  * with vf_fail, and a replay always prints the whole detail. */
-#define FULL_PER_SIG 3
+#define FULL_PER_SIG 2
 static void report(const char *sig, const char *full, long n, const char *unit) {
 	static struct { char sig[64]; int n; } seen[24];
 	int i;
@@ -156,7 +156,17 @@ static void report(const char *sig, const char *full, long n, const char *unit) 
 	if (vf_replaying() || (i < 24 && seen[i].n++ < FULL_PER_SIG))
 		vf_fail(sig, "%s [first of %ld such %s in this case]", full, n, unit);
 	else
-		vf_fail(sig, "%.70s... [%ld %s; replay for detail]", full, n, unit);
+		vf_fail(sig, "%ld %s; replay for detail", n, unit);
+}
+
+/* single failure through the output budget */
+static void fail1(const char *sig, const char *fmt, ...) {
+	char d[2400];
+	va_list ap;
+	va_start(ap, fmt);
+	vsnprintf(d, sizeof d, fmt, ap);
+	va_end(ap);
+	report(sig, d, 1, "comparison(s)");
 }
 
 static void acc_finish(acc_t *a) {
@@ -275,9 +285,9 @@ static int judge(acc_t *a, const base_t *b, const char *m, size_t mlen, const ch
 		else sig = "decoded-data-mismatch";
 		desc_char(vd, sizeof vd, val);
 		acc_fail(a, sig, "%s [pos=%d val=%s]: \"%s\": library ACCEPTED it and returned %s%s; reference (characters outside the alphabet removed): %s%s%s; "
-		         "valid string \"%s\" alg %d %s",
-		         what, pos, vd, printable(m, mlen), pdec_eq(&lib, &b->want) ? "the data of the valid string " : "DIFFERENT data ", pdec_str(&lib),
-		         pdec_str(&r1), has_lower ? "; with lowercase folded: " : "", has_lower ? pdec_str(&r2) : "", b->s, b->alg, pdec_str(&b->want));
+		         "valid string \"%s\"",
+		         what, pos, vd, printable(m, mlen), pdec_eq(&lib, &b->want) ? "the data of the valid string" : "DIFFERENT data ", pdec_eq(&lib, &b->want) ? "" : pdec_str(&lib),
+		         pdec_str(&r1), has_lower ? "; with lowercase folded: " : "", has_lower ? pdec_str(&r2) : "", b->s);
 	}
 	return refok;
 }
@@ -428,6 +438,9 @@ static void fam_alg(const base_t *b) {
 	unsigned char head[9], digest[80];
 	size_t l;
 	pdec lib, want, rd;
+	acc_t a;
+	int i;
+	acc_init(&a, "alg");
 	memcpy(head, b->bin, 9);
 	for (id = 0; id < 256; id++) {
 		int idL = ref_hash_len(id);
@@ -440,16 +453,16 @@ static void fam_alg(const base_t *b) {
 			want.imp[0] = (unsigned char)id;
 			if (!pdec_eq(&rd, &want)) vf_harness_error("reference decoder refuses a valid string of algorithm %d", id);
 			n_acc++;
-			if (!lib.ok) vf_fail("valid-string-rejected", "algorithm id %d with a %d-byte digest and correct CRC: \"%s\" rejected with 0x%x", id, L, m, lib.rc);
-			else if (!pdec_eq(&lib, &want)) vf_fail("decoded-data-mismatch", "algorithm id %d \"%s\": expected %s got %s", id, m, pdec_str(&want), pdec_str(&lib));
+			if (!lib.ok) acc_fail(&a, "valid-string-rejected", "algorithm id %d with a %d-byte digest and correct CRC: \"%s\" rejected with 0x%x", id, L, m, lib.rc);
+			else if (!pdec_eq(&lib, &want)) acc_fail(&a, "decoded-data-mismatch", "algorithm id %d \"%s\": expected %s got %s", id, m, pdec_str(&want), pdec_str(&lib));
 		} else if (idL == 0) {
 			if (rd.rc != -4) vf_harness_error("reference decoder: unknown id %d gives %d", id, rd.rc);
 			n_unknown++;
-			if (lib.ok) vf_fail("unknown-algorithm-accepted", "algorithm byte of \"%s\" replaced by unknown id %d (CRC recomputed): \"%s\" ACCEPTED, returned %s", b->s, id, m, pdec_str(&lib));
+			if (lib.ok) acc_fail(&a, "unknown-algorithm-accepted", "algorithm byte of \"%s\" replaced by unknown id %d (CRC recomputed): \"%s\" ACCEPTED, returned %s", b->s, id, m, pdec_str(&lib));
 		} else {
 			if (rd.rc != -5) vf_harness_error("reference decoder: id %d with a %d-byte digest gives %d", id, L, rd.rc);
 			n_otherlen++;
-			if (lib.ok) vf_fail("wrong-length-accepted", "algorithm byte of \"%s\" replaced by id %d whose digest has %d bytes, not %d (CRC recomputed): \"%s\" ACCEPTED, returned %s", b->s, id, idL, L, m, pdec_str(&lib));
+			if (lib.ok) acc_fail(&a, "wrong-length-accepted", "algorithm byte of \"%s\" replaced by id %d whose digest has %d bytes, not %d (CRC recomputed): \"%s\" ACCEPTED, returned %s", b->s, id, idL, L, m, pdec_str(&lib));
 		}
 	}
 	head[8] = (unsigned char)b->alg;
@@ -461,8 +474,9 @@ static void fam_alg(const base_t *b) {
 		if (rd.ok) vf_harness_error("reference decoder accepts digest length %d for algorithm %d", dl, b->alg);
 		lib_dec(m, l, &lib);
 		n_dl++;
-		if (lib.ok) vf_fail("wrong-length-accepted", "algorithm %d with a %d-byte digest instead of %d (CRC correct): \"%s\" ACCEPTED, returned %s", b->alg, dl, L, m, pdec_str(&lib));
+		if (lib.ok) acc_fail(&a, "wrong-length-accepted", "algorithm %d with a %d-byte digest instead of %d (CRC correct): \"%s\" ACCEPTED, returned %s", b->alg, dl, L, m, pdec_str(&lib));
 	}
+	for (i = 0; i < a.nf; i++) report(a.f[i].sig, a.f[i].first, a.f[i].n, "string(s)");
 	vf_outcome("alg:same-length-known-id:checked");
 	vf_outcome("alg:unknown-id:checked");
 	if (n_otherlen) vf_outcome("alg:known-id-other-length:checked");
@@ -547,7 +561,7 @@ static void part_e(void) {
 				res = KSI_DataHash_fromImprint(ctx, b.want.imp, b.want.il, &h);
 				if (res != KSI_OK) {
 					/* the property quantifies over every known algorithm */
-					vf_fail("known-algorithm-imprint-refused", "KSI_DataHash_fromImprint refuses algorithm %d: 0x%x", b.alg, res);
+					fail1("known-algorithm-imprint-refused", "KSI_DataHash_fromImprint refuses algorithm %d: 0x%x", b.alg, res);
 					KSI_Integer_free(tm); KSI_PublicationData_free(pd);
 					vf_case_end(1);
 					continue;
@@ -555,20 +569,20 @@ static void part_e(void) {
 				if (KSI_PublicationData_setTime(pd, tm) != KSI_OK || KSI_PublicationData_setImprint(pd, h) != KSI_OK) vf_harness_error("setters failed");
 				res = KSI_PublicationData_toBase32(pd, &str);
 				g_calls++;
-				if (res != KSI_OK || str == NULL) vf_fail("encode-failed", "KSI_PublicationData_toBase32 failed 0x%x for time %llx alg %d", res, (unsigned long long)b.t, b.alg);
+				if (res != KSI_OK || str == NULL) fail1("encode-failed", "KSI_PublicationData_toBase32 failed 0x%x for time %llx alg %d", res, (unsigned long long)b.t, b.alg);
 				else {
 					if (check_encoded(str, b.s, b.nbin, 6, "e", why, sizeof why) != 0)
-						vf_fail("encoding-mismatch", "time %llx imprint %s: reference \"%s\", library \"%s\": %s", (unsigned long long)b.t, vf_hex(b.want.imp, b.want.il), b.s, str, why);
+						fail1("encoding-mismatch", "time %llx imprint %s: reference \"%s\", library \"%s\": %s", (unsigned long long)b.t, vf_hex(b.want.imp, b.want.il), b.s, str, why);
 					if (sampled++ < 3) vf_sample("e: time %llx imprint %s -> \"%s\" (reference \"%s\"); decoded back to the same time and imprint", (unsigned long long)b.t, vf_hex(b.want.imp, b.want.il), str, b.s);
 					/* decode what the library produced */
 					lib_dec(str, strlen(str), &d);
-					if (!pdec_eq(&d, &b.want)) vf_fail("roundtrip-mismatch", "library string \"%s\" decodes to %s, expected %s", str, pdec_str(&d), pdec_str(&b.want));
+					if (!pdec_eq(&d, &b.want)) fail1("roundtrip-mismatch", "library string \"%s\" decodes to %s, expected %s", str, pdec_str(&d), pdec_str(&b.want));
 					else vf_outcome("e:roundtrip:ok");
 					vf_obs("%s", str);
 				}
 				/* decode the reference string */
 				lib_dec(b.s, b.len, &d);
-				if (!pdec_eq(&d, &b.want)) vf_fail("valid-string-rejected", "reference string \"%s\" decodes to %s, expected %s", b.s, pdec_str(&d), pdec_str(&b.want));
+				if (!pdec_eq(&d, &b.want)) fail1("valid-string-rejected", "reference string \"%s\" decodes to %s, expected %s", b.s, pdec_str(&d), pdec_str(&b.want));
 				else vf_outcome("e:decode-reference-string:ok");
 				KSI_free(str);
 				KSI_PublicationData_free(pd);
@@ -602,18 +616,18 @@ static void part_b_encode(void) {
 				vf_count("impl_calls", 1);
 				if (n == 0) {
 					/* nothing to encode: an error or the empty string are both fine */
-					if (res == KSI_OK && (enc == NULL || enc[0] != 0)) vf_fail("b32enc-mismatch", "0 bytes encoded to \"%s\"", enc ? enc : "(null)");
+					if (res == KSI_OK && (enc == NULL || enc[0] != 0)) fail1("b32enc-mismatch", "0 bytes encoded to \"%s\"", enc ? enc : "(null)");
 					vf_outcome("b:enc:empty-input:%s", res == KSI_OK ? "empty-string" : "error");
 				} else if (res != KSI_OK || enc == NULL) {
-					vf_fail("b32enc-failed", "KSI_base32Encode(%d bytes, group %d) failed 0x%x", n, GROUPS[gi], res);
+					fail1("b32enc-failed", "KSI_base32Encode(%d bytes, group %d) failed 0x%x", n, GROUPS[gi], res);
 				} else {
 					if (check_encoded(enc, ref, (size_t)n, GROUPS[gi], "b:enc", why, sizeof why) != 0)
-						vf_fail("b32enc-mismatch", "%d bytes %s group %d: reference \"%s\", library \"%s\": %s", n, vf_hex(d, (size_t)n), GROUPS[gi], ref, enc, why);
+						fail1("b32enc-mismatch", "%d bytes %s group %d: reference \"%s\", library \"%s\": %s", n, vf_hex(d, (size_t)n), GROUPS[gi], ref, enc, why);
 					else vf_outcome("b:enc:equal");
 					res = KSI_base32Decode(enc, &back, &bl);
 					vf_count("impl_calls", 1);
 					if (res != KSI_OK || bl != (size_t)n || memcmp(back, d, (size_t)n) != 0)
-						vf_fail("b32-roundtrip-mismatch", "\"%s\" decodes to res 0x%x %s, expected %s", enc, res, res == KSI_OK ? vf_hex(back, bl) : "-", vf_hex(d, (size_t)n));
+						fail1("b32-roundtrip-mismatch", "\"%s\" decodes to res 0x%x %s, expected %s", enc, res, res == KSI_OK ? vf_hex(back, bl) : "-", vf_hex(d, (size_t)n));
 					vf_obs("%s", enc);
 				}
 				KSI_free(back);
@@ -727,7 +741,10 @@ static void part_b_crc(void) {
 	if (ref_crc32("123456789", 9) != 0xCBF43926u) vf_harness_error("reference CRC-32 does not give the check value");
 	for (i = 0; i <= 40 + (int)(sizeof NS / sizeof *NS); i++) {
 		int n = i <= 40 ? i : NS[i - 41], pat;
+		acc_t a;
+		int j;
 		if (!vf_case_begin("b:crc:n%d", n)) continue;
+		acc_init(&a, "b:crc");
 		for (pat = 0; pat < 4; pat++) {
 			unsigned char d[1000], *ex;
 			uint32_t want;
@@ -738,17 +755,18 @@ static void part_b_crc(void) {
 			want = ref_crc32(d, (size_t)n);
 			got = KSI_crc32(ex, (size_t)n, 0);
 			vf_count("impl_calls", 1);
-			if (got != (unsigned long)want) vf_fail("crc32-mismatch", "%d bytes pattern %d: reference %08x library %lx", n, pat, want, got);
+			if (got != (unsigned long)want) acc_fail(&a, "crc32-mismatch", "%d bytes pattern %d: reference %08x library %lx", n, pat, want, got);
 			/* documented continuation: result of the previous call as initial value */
 			for (k = 0; k <= n; k += (n <= 40 ? 1 : 37)) {
 				unsigned long part = KSI_crc32(ex, (size_t)k, 0);
 				got = KSI_crc32(ex + k, (size_t)(n - k), part);
 				vf_count("impl_calls", 2);
-				if (got != (unsigned long)want) vf_fail("crc32-continuation-mismatch", "%d bytes split at %d: reference %08x library %lx", n, k, want, got);
+				if (got != (unsigned long)want) acc_fail(&a, "crc32-continuation-mismatch", "%d bytes split at %d: reference %08x library %lx", n, k, want, got);
 			}
 			vf_obs("%lx", got);
 			free(ex);
 		}
+		for (j = 0; j < a.nf; j++) report(a.f[j].sig, a.f[j].first, a.f[j].n, "comparison(s)");
 		vf_outcome("b:crc:compared");
 		vf_case_end(1);
 	}
